@@ -1758,7 +1758,13 @@ class Engine:
         entry = State(dict(st.env), dict(st.heap), list(st.pc), None)
         st.old = entry
         body = self.fndef.body
-        if frag is not None and "head" in frag:
+        if frag is not None and "body_of_loop" in frag:
+            # the body of the k-th loop of the function (pre-order), as a straight block: one arbitrary iteration
+            tgt = [n for n in self._preorder(self.fndef) if isinstance(n, (ast.While, ast.For))]
+            if frag["body_of_loop"] > len(tgt):
+                raise ContractError("fragment: the function has no loop #%d" % frag["body_of_loop"])
+            body = tgt[frag["body_of_loop"] - 1].body
+        elif frag is not None and "head" in frag:
             while body and isinstance(body[0], ast.Expr) and isinstance(body[0].value, ast.Constant):
                 body = body[1:]
             if frag["head"] > len(body):
